@@ -165,6 +165,12 @@ def run(ctx):
                 variants.append('~'.join([f[0], f[1], f[2], hexs(body + body)]))
             variants.append('~'.join([f[0], '404', f[2], f[3]]))
             variants.append('~'.join([f[0], f[1], f[2] + ';' + hexs(b'X-Injected') + '=' + hexs(b'1'), f[3]]))
+            # a field added after signing under names some part of the code base treats specially (uncached / stateful / hop-by-hop lists,
+            # integrity fields, variants): every one of them is covered by the header hash
+            for nm2 in (b'Set-Cookie', b'Clear-Site-Data', b'Strict-Transport-Security', b'Www-Authenticate', b'Connection', b'Keep-Alive', b'Public-Key-Pins', b'Authorization', b'Cookie',
+                        b'Variants', b'Variant-Key', b'Link', b'Signature', b'Content-Length'):
+                if hexs(nm2).lower() in f[2].lower(): continue
+                variants.append('~'.join([f[0], f[1], f[2] + ';' + hexs(nm2) + '=' + hexs(b'evil=1'), f[3]]))
             variants.append('~'.join([f[0], f[1], f[2].replace(hexs(b'text/plain'), hexs(b'text/html')), f[3]]))
             variants.append('~'.join([hexs(unhex(f[0]) + b'2'), f[1], f[2], f[3]]))
             # white space added around one header value (the header block hash must change)
@@ -213,3 +219,7 @@ def run(ctx):
         ops.append(f'bsig.subset {hexs(rng.choice([vurl, b"", b"https://example.com/" + b"v" * 30]))}|{hexs(rbytes(rng, rng.choice([0, 32])))}|{d}|{d + rng.choice([0, 3600, -1])}|{",".join(hs) or "."}')
         ops.append(f'bsig.msg {hexs(rbytes(rng, rng.randrange(0, 40)))} {rng.choice(["b1", "b2"])}')
     ctx.both(ops)
+
+    # the real sign-bundle binary (its signing loop is not the library's): refuse, or write something that verifies completely
+    import c20
+    c20.sign_bundle_variants_stage(ctx, rng)
